@@ -4,7 +4,8 @@
    GV.Pack.QuoteModel (strconv.Quote as used by format.go's quote(); Lua string
    literals per manual 3.1), GV.Pack.NumStrModel. *)
 From Coq Require Import ZArith List.
-From GV Require Import Pack.NumStrModel Pack.Model Pack.Bytes Pack.IntRound Pack.Lockstep Pack.QuoteModel Pack.QuoteProofs.
+From GV Require Import Pack.NumStrModel Pack.NumStrProofs Pack.Model Pack.Bytes Pack.IntRound Pack.Lockstep Pack.Total
+  Pack.QuoteModel Pack.QuoteProofs Pack.QuoteRound.
 Import ListNotations.
 Open Scope Z_scope.
 
@@ -34,23 +35,58 @@ Theorem C17_uint_roundtrip : forall (k : nat) v s s',
 Proof. exact uint_roundtrip. Qed.
 Print Assumptions C17_uint_roundtrip.
 
-(* Whole-format round trip over the option loop (lockstep of PackValues and UnpackString):
-   for every format string and every tuple of int64 / 64-bit-float values that pack accepts,
-   unpack of the packed string returns the packed values and the position after the last byte.
-   _partial: every option character the packer dispatches on must be one of
-   < > = ! b B h H l j L J T i I d n x X or space (all widths, alignment, X included);
-   the string options s z c and the float32 option f are not yet covered. *)
-Theorem C17_unpack_pack_partial : forall fmt vs out packed,
+(* string.unpack(fmt, string.pack(fmt, v...)) returns v... and the next position: every format
+   string (every option: < > = ![n] b B h H l L j J T i[n] I[n] f d n s[n] z c[n] x X and spaces,
+   alignment and padding included) and every tuple of values that pack accepts.  [packed] is
+   the list of values as pack converted them (integers as int64, floats as bit patterns, c[n]
+   strings padded); val_ok only says that integers are int64, floats 64-bit patterns and
+   strings shorter than 2^63. *)
+Theorem C17_unpack_pack : forall fmt vs out packed,
   Forall val_ok vs ->
-  dispatched_ok (S (length fmt)) (mkP rd0 fmt vs [] []) ->
   pack fmt vs = POk out packed ->
   unpack fmt out 0 = UOk packed (len out).
-Proof. exact unpack_pack_partial. Qed.
-Print Assumptions C17_unpack_pack_partial.
+Proof. exact unpack_pack. Qed.
+Print Assumptions C17_unpack_pack.
 
-(* The round-1 witness against load(%q s) = s (U+200B) round-trips on the repaired quoting,
-   whatever unicode.IsPrint answers for it.  (The universal quote_load_string is not proved yet.) *)
-Theorem C17_quote_load_former_witness :
-  forall is_print, lua_string_literal (quote is_print [226; 128; 139]) = Some [226; 128; 139].
-Proof. exact quote_load_u200b. Qed.
-Print Assumptions C17_quote_load_former_witness.
+(* no_panic / termination of the reader, packer, unpacker, packsize: all inputs *)
+Theorem C17_pack_total : forall fmt vs, pack fmt vs <> POutOfFuel.
+Proof. exact pack_total. Qed.
+Print Assumptions C17_pack_total.
+
+Theorem C17_unpack_no_panic : forall fmt data j,
+  unpack fmt data j <> UPanic /\ unpack fmt data j <> UOutOfFuel.
+Proof. exact unpack_no_panic. Qed.
+Print Assumptions C17_unpack_no_panic.
+
+Theorem C17_packsize_total : forall fmt, packsize fmt <> SOutOfFuel.
+Proof. exact packsize_total. Qed.
+Print Assumptions C17_packsize_total.
+
+(* a format containing a character that is neither an option nor a digit is an error *)
+Theorem C17_malformed_format_is_error : forall fmt vs x,
+  In x fmt -> ~ In x supported -> is_digit x = false -> exists e, pack fmt vs = PErr e.
+Proof. exact malformed_format_is_error. Qed.
+Print Assumptions C17_malformed_format_is_error.
+
+(* load('return ' .. string.format('%q', s))() == s for EVERY byte string; unicode.IsPrint is
+   arbitrary except that it rejects LF and CR (it is 0x20..0x7e on ASCII in Go). *)
+Theorem C17_quote_load_string : forall is_print : Z -> bool,
+  is_print 10 = false -> is_print 13 = false ->
+  forall s, QuoteRound.bytes_ok s -> lua_string_literal (quote is_print s) = Some s.
+Proof. exact quote_load_string. Qed.
+Print Assumptions C17_quote_load_string.
+
+(* %q of an integer read back by the manual's rules for integer literals, every int64 incl. mininteger *)
+Theorem C17_quote_load_int : forall n, minint <= n <= maxint -> lit_int (quote_int n) = Some n.
+Proof. exact quote_load_int. Qed.
+Print Assumptions C17_quote_load_int.
+
+(* tonumber(tostring(n)) == n for every int64 (strconv.ParseInt after strconv.FormatInt) *)
+Theorem C17_tonumber_tostring_int : forall n, minint <= n <= maxint -> parse_int (format_int n) = Some n.
+Proof. exact tonumber_tostring_int. Qed.
+Print Assumptions C17_tonumber_tostring_int.
+
+(* digit generation of %d %x %X %o %u: the digits printed in any base 2..36 denote the number *)
+Theorem C17_digits_denote : forall b up n, 2 <= b <= 36 -> 0 <= n -> parse_digits b (digits up b n) 0 = Some n.
+Proof. intros; now apply parse_digits_digits. Qed.
+Print Assumptions C17_digits_denote.
